@@ -48,6 +48,8 @@ type c34Fixture struct {
 	layout int
 	// header body index of block_body_hash (segwit/dijkstra)
 	bhIdx int
+	// synth builds the block instead of reading it from `path`
+	synth func() []byte
 
 	once sync.Once
 	data []byte
@@ -70,6 +72,33 @@ var c34Fixtures = []*c34Fixture{
 	{name: "babbage", era: "babbage", path: "internal/testdata/babbage_block.hex", btype: ledger.BlockTypeBabbage, layout: c34Segwit, bhIdx: 7},
 	{name: "conway", era: "conway", path: "internal/testdata/conway_block.hex", btype: ledger.BlockTypeConway, layout: c34Segwit, bhIdx: 7},
 	{name: "dijkstra", era: "dijkstra", path: "ledger/dijkstra/testdata/musashi_dijkstra_block.hex", btype: ledger.BlockTypeDijkstra, layout: c34Dijkstra, bhIdx: 7},
+	// the only real Dijkstra fixture has an empty body: a Dijkstra-layout block WITH transactions
+	// (real Dijkstra header, Conway transactions the Dijkstra decoder accepts) whose header
+	// commits to the synthetic body, so that body mutations of this layout are exercised
+	{name: "dijkstra.syn", era: "dijkstra", btype: ledger.BlockTypeDijkstra, layout: c34Dijkstra, bhIdx: 7, synth: c34SynthDijkstra},
+}
+
+// c34SynthDijkstra: synthDijkstra() (util_g10b.go) with the header's block_body_hash replaced
+// by blake2b-256 of the synthetic body element, so the block decodes with validation ON.
+func c34SynthDijkstra() []byte {
+	if _, err := fixtures(); err != nil {
+		return nil
+	}
+	raw := synthDijkstra()
+	if raw == nil {
+		return nil
+	}
+	root, err := parseCborAll(raw)
+	if err != nil || len(root.kids) != 2 {
+		return nil
+	}
+	hbody := root.kid(0).kid(0)
+	if hbody == nil || len(hbody.kids) <= 7 || hbody.kids[7].major != 2 || len(hbody.kids[7].payload) != 32 {
+		return nil
+	}
+	h := sum256(root.kid(1).bytes())
+	hbody.kids[7].payload = h[:]
+	return root.bytes()
 }
 
 func c34Repo() string {
@@ -85,12 +114,18 @@ func c34Repo() string {
 
 func (f *c34Fixture) load() ([]byte, error) {
 	f.once.Do(func() {
-		raw, err := os.ReadFile(filepath.Join(c34Repo(), f.path))
-		if err != nil {
-			f.err = err
-			return
+		if f.synth != nil {
+			if f.data = f.synth(); f.data == nil {
+				f.err = errors.New("synthetic fixture could not be built")
+			}
+		} else {
+			raw, err := os.ReadFile(filepath.Join(c34Repo(), f.path))
+			if err != nil {
+				f.err = err
+				return
+			}
+			f.data, f.err = hex.DecodeString(strings.TrimSpace(string(raw)))
 		}
-		f.data, f.err = hex.DecodeString(strings.TrimSpace(string(raw)))
 		if f.err == nil {
 			f.oitems, _, f.ook = c34Split(f.data)
 			if f.ook && f.layout == c34ByronMain && len(f.oitems) >= 2 {
@@ -804,6 +839,46 @@ func genC34(r *Rand, n int, tier string, emit func(string)) {
 					}
 				}
 			}
+		}
+		// dijkstra: [header, [invalid_transactions/nil, transactions, leios/nil, peras/nil]] —
+		// transaction-level edits inside the single body element
+		if fx.layout == c34Dijkstra && len(top.kids) == 2 && len(top.kids[1].kids) == 4 {
+			body := top.kids[1]
+			txs := body.kids[1]
+			m := len(txs.kids)
+			for _, i := range []int{0, m - 1, m / 2} {
+				if i < 0 || i >= m {
+					continue
+				}
+				tx := txs.kids[i]
+				// drop / duplicate transaction i
+				out(c34Op(fx, false, append(c34Recount(d, txs, -1), c34Splice{tx.off, tx.end - tx.off, nil})))
+				out(c34Op(fx, false, append(c34Recount(d, txs, +1), c34Splice{tx.end, 0, append([]byte{}, tx.bytes(d)...)})))
+				// first / last byte of the transaction and of each of its three parts
+				for _, k := range append([]c34Node{tx}, tx.kids...) {
+					for _, off := range []int{k.off, k.end - 1} {
+						out(c34Op(fx, false, []c34Splice{{off, 1, []byte{d[off] + 1}}}))
+					}
+				}
+			}
+			if m >= 2 && string(txs.kids[0].bytes(d)) != string(txs.kids[m-1].bytes(d)) {
+				a, b := txs.kids[0], txs.kids[m-1]
+				out(c34Op(fx, false, []c34Splice{
+					{a.off, a.end - a.off, append([]byte{}, b.bytes(d)...)}, {b.off, b.end - b.off, append([]byte{}, a.bytes(d)...)}}))
+			}
+			// the three optional elements: null <-> something
+			for _, idx := range []int{0, 2, 3} {
+				k := body.kids[idx]
+				for _, rep := range [][]byte{{0xf6}, {0x80}, {0x81, 0x00}, {0x9f, 0xff}} {
+					if string(k.bytes(d)) != string(rep) {
+						out(c34Op(fx, false, []c34Splice{{k.off, k.end - k.off, rep}}))
+						out(c34Op(fx, true, []c34Splice{{k.off, k.end - k.off, rep}}))
+					}
+				}
+			}
+			// the transactions array re-framed (indefinite / non-minimal) — same content, other bytes
+			out(c34Op(fx, false, []c34Splice{{txs.off, txs.hl, []byte{0x9f}}, {txs.end, 0, []byte{0xff}}}))
+			out(c34Op(fx, false, []c34Splice{{txs.off, txs.hl, c34Hdr(4, uint64(m), 2)}}))
 		}
 		// header: flip bits of the committed body hash itself (hdr=n: spec silent, model must still predict)
 		if fx.layout == c34Segwit || fx.layout == c34Dijkstra {
